@@ -89,7 +89,8 @@ def cmd_check(args):
     # ---- canaries: every unit must have a reachable exit; every loop body must be reachable
     canary_stats = {"reachable": 0, "infeasible_paths": 0}
     for u in units:
-        exits = [ob for ob in u["obligations"] if ob["kind"] == "canary" and ob["name"].split("/canary.")[1].startswith("exit")]
+        exits = [ob for ob in u["obligations"] if ob["kind"] == "canary"
+                 and ob["name"].split("/canary.")[1].split("@")[0].startswith("exit")]
         if u.get("unsupported") or u.get("crash"):
             continue
         # a canary must NOT be proved; 'refuted' shows the exit reachable, 'unknown' (quantified hypotheses) only that no
@@ -108,7 +109,7 @@ def cmd_check(args):
                                  f"{[verdicts[ob['name']]['verdict'] for ob in exits]}")
         loops = {}
         for ob in u["obligations"]:
-            if ob["kind"] == "canary" and "loop" in ob["name"].split("/canary.")[1]:
+            if ob["kind"] == "canary" and "loop" in ob["name"].split("/canary.")[1].split("@")[0]:
                 lname = ob["name"].split("/canary.")[1].split("#")[0].split("@")[0]
                 loops.setdefault(lname, []).append(verdicts[ob["name"]]["verdict"])
         for lname, vs in loops.items():
